@@ -8,6 +8,7 @@ COQ_MODULE = "Prop_C09"
 THEOREMS = ["C09_retry_blocks_holding_nothing", "C09_leaf_members_hold_nothing", "C09_every_schedule_waits_clean"]
 CASE_MODULES = ["Conc", "BMonitors", "Wp09"]
 CHECK_WITHOUT_PROOF = True
+SHRINK_GUARD = 0      # which of the booleans evaluated with the verdict certifies the theorem's hypotheses
 TRUSTED = common.TRUSTED_COMMON + ["deterministic scheduler of the harness: real OS threads, one runnable at a time, "
                                    "every raw lock operation and data access is a scheduling point"]
 ASSUMPTIONS = common.ASSUME_COMMON + ["grant policies of the auditing RwLock: reader-preferring and writer-preferring "
